@@ -360,7 +360,9 @@ func c19Matrix(f func(admitted, fallback bool, handler string)) {
 }
 
 var c19Bools = []bool{true, false}
-var c19Handlers = []string{"ok", "err", "panic"}
+// "errtyped": the handler fails with the framework's own error type carrying a client-error status (where the
+// framework has one; elsewhere it is a second plain failure)
+var c19Handlers = []string{"ok", "err", "panic", "errtyped"}
 
 func c19Name(ep string, admitted, fallback bool, handler string) string {
 	if c19PairTag != "" {
@@ -412,7 +414,7 @@ func c19IrisCase(t *testing.T, admitted, fallback bool, handler string) {
 		case "ok":
 			ctx.StatusCode(http.StatusOK)
 			_, _ = ctx.WriteString("ok")
-		case "err":
+		case "err", "errtyped":
 			ctx.StatusCode(http.StatusInternalServerError)
 			_, _ = ctx.WriteString("err")
 		case "panic":
